@@ -101,11 +101,19 @@ def _fz(d):
     return frozenset(d.items())
 
 
+_base_memo = {}
+
+
 def cell_base(cell):
     """root of a cell path"""
-    while cell[0] in ("f", "i"):
-        cell = cell[1]
-    return cell
+    b = _base_memo.get(cell)
+    if b is None:
+        b = cell
+        while b[0] in ("f", "i"):
+            b = b[1]
+        if len(_base_memo) < 200000:
+            _base_memo[cell] = b
+    return b
 
 
 def cell_has_prefix(cell, prefix):
@@ -290,6 +298,15 @@ class Interp:
         return frozenset(a for a in va if any(self.cmp_atoms(op, a, b)[0] for b in vb))
 
     def arith(self, op, va, vb):
+        if len(va) * len(vb) > 24 and op in ("+", "-") and not any(isinstance(a, tuple) for a in va | vb) \
+                and "PTR" not in va and "PTR" not in vb:
+            la = min(atom_interval(a)[0] for a in va)
+            ha = max(atom_interval(a)[1] for a in va)
+            lb = min(atom_interval(b)[0] for b in vb)
+            hb = max(atom_interval(b)[1] for b in vb)
+            if op == "+":
+                return self.from_interval(la + lb, ha + hb)
+            return self.from_interval(la - hb, ha - lb)
         out = set()
         for a in va:
             for b in vb:
@@ -397,8 +414,11 @@ class Interp:
                 star = ("i", base, "*")
                 if star in st.mem:
                     return st.mem[star]
-        if cell[0] == "g" and cell[1] == "errno":
-            return self.pos()
+        if cell[0] == "g":
+            if cell[1] == "errno":
+                return self.pos()
+            if cell[1] in self.prog.consts:
+                return frozenset({self.abs_int(self.prog.consts[cell[1]])})
         return self.top_for_type(ct, cell)
 
     def store(self, st, cells, val, fn=None, node=None, weak=False):
@@ -426,9 +446,9 @@ class Interp:
         for c in cells:
             b = cell_base(c)
             if b[0] == "g" and b[1] != "errno":
-                self.events.append(("store-global", fn, node, (c, val), s))
+                self.events.append(("store-global", fn, node, (c, val), s, tuple(f.name for f in self.stack)))
             elif b[0] == "d":
-                self.events.append(("store-input", fn, node, (c, val), s))
+                self.events.append(("store-input", fn, node, (c, val), s, tuple(f.name for f in self.stack)))
         for h in self.hooks_store:
             for c in cells:
                 r = h(self, fn, node, c, val, s)
@@ -973,7 +993,7 @@ class Interp:
                 if isinstance(x, tuple) and x[0] == "addr":
                     s.mem.pop(x[1], None)
                     self.kill_prefix(s, x[1])
-        self.events.append(("unknown-call", fn, n, name, None))
+        self.events.append(("unknown-call", fn, n, name, None, tuple(f.name for f in self.stack)))
         return [(s, self.top_for_type(n.get("ct") or n.get("t")))]
 
     def locals_of(self, F):
@@ -1094,7 +1114,35 @@ class Interp:
         self._live_cache[fn.name] = (res, self.locals_of(fn))
         return self._live_cache[fn.name]
 
+    DEAD_STATUS = ("closed", "freed", "moved", "reaped", "gone")
+
+    def gc_tokens(self, st):
+        """forget resources that are finished (closed / freed / reaped) and no longer referenced anywhere:
+        nothing can happen to them any more, and forgetting them lets equal futures merge"""
+        cand = [k for k, v in st.res.items() if k[0] in ("fd", "mem", "pid") and v and v[0] in self.DEAD_STATUS]
+        if not cand:
+            return st
+        ref = set()
+        for v in st.mem.values():
+            for a in v:
+                if isinstance(a, tuple):
+                    ref.add(a)
+        for v in st.tmp.values():
+            if isinstance(v, frozenset):
+                for a in v:
+                    if isinstance(a, tuple):
+                        ref.add(a)
+        dead = [k for k in cand if k not in ref]
+        if not dead:
+            return st
+        s = st.copy()
+        for k in dead:
+            del s.res[k]
+            s.res.pop(("nb", k), None)
+        return s
+
     def drop_dead(self, st, fn, bid):
+        st = self.gc_tokens(st)
         live, locs = self.liveness(fn)
         lv = live[bid]
         dead = [k for k in st.mem if cell_base(k)[0] == "v" and cell_base(k)[1] in locs and cell_base(k)[1] not in lv
